@@ -125,8 +125,25 @@ class Builder:
             mol = m.GetMol()
             Chem.SanitizeMol(mol, sanitizeOps=Chem.SANITIZE_ALL ^ Chem.SANITIZE_SETAROMATICITY)
             smi = Chem.MolToSmiles(mol, kekuleSmiles=True)
-            if Chem.MolFromSmiles(smi) is None:
+            mol2 = Chem.MolFromSmiles(smi)
+            if mol2 is None:
                 return None
+            # cis/trans marking of acyclic C=C bonds with both ends substituted (set on the re-parsed molecule: RDKit
+            # drops stereo labels put on a molecule assembled atom by atom)
+            marked = False
+            for b in mol2.GetBonds():
+                if b.GetBondType() == Chem.BondType.DOUBLE and not b.IsInRing() and self.rng.random() < 0.6:
+                    a1, a2 = b.GetBeginAtom(), b.GetEndAtom()
+                    n1 = [x.GetIdx() for x in a1.GetNeighbors() if x.GetIdx() != a2.GetIdx()]
+                    n2 = [x.GetIdx() for x in a2.GetNeighbors() if x.GetIdx() != a1.GetIdx()]
+                    if n1 and n2 and a1.GetSymbol() == 'C' and a2.GetSymbol() == 'C':
+                        b.SetStereoAtoms(self.rng.choice(n1), self.rng.choice(n2))
+                        b.SetStereo(self.rng.choice([Chem.BondStereo.STEREOCIS, Chem.BondStereo.STEREOTRANS]))
+                        marked = True
+            if marked:
+                smi2 = Chem.MolToSmiles(mol2, kekuleSmiles=True)
+                if Chem.MolFromSmiles(smi2) is not None:
+                    return smi2
             return smi
         except Exception:
             return None
@@ -168,7 +185,23 @@ FIXED_GAS = ['C', 'CC', 'CCC', 'C=C', 'C#C', 'CC(C)C', 'CC(C)(C)C', 'C1CC1', 'C1
              'CC1=CC=CC=C1', 'c1ccccc1', 'Cc1ccccc1', 'c1ccc2ccccc2c1', 'Cc1cccc2ccccc12', 'C=CC=C', 'C=C=C', 'CO', 'CCO', 'COC',
              'C=O', 'CC=O', 'CC(=O)C', 'CC(=O)O', 'CC(=O)OC', 'OC=O', 'O', 'OO', '[CH3]', 'C[CH2]', '[CH2]', '[OH]', 'C[O]', 'C/C=C/C',
              'C/C=C\\C', 'CC(C)=C(C)C', 'C1=CCCCC1', 'C1=CC=CCC1', 'OC1=CC=CC=C1', 'CCCCCC', 'C#CC', 'CC#CC', 'OCCO', 'OCC(O)CO',
-             'C1CCC2CCCCC2C1', 'C1CC2CCC1C2', 'C1CCC2(CC1)CCCC2', 'CN', 'CNC', 'NC=O', '[H][H]']
+             'C1CCC2CCCCC2C1', 'C1CC2CCC1C2', 'C1CCC2(CC1)CCCC2', 'CN', 'CNC', 'NC=O', '[H][H]',
+             # branched alkanes / alkenes that trigger several same-named correction variants (gauche, cis, ortho)
+             'CCC(C)(C)C', 'CC(C)C(C)C', 'CC(C)CC(C)C', 'CCC(C)C(C)CC', 'CC(C)(C)C(C)(C)C', 'CC=C(C)C', 'C/C=C\\C(C)(C)C',
+             'CC(C)(C)/C=C\\C(C)(C)C', 'Cc1ccccc1C', 'Cc1cccc(C)c1C', 'CC1CC(C)(C)C1', 'C1=CC=CCC1', 'C1CC=CC=C1',
+             'CC/C(C)=C\\C(C)(C)C', 'CC/C(C)=C/C(C)(C)C', 'CC(C)(C)/C=C(/C)CC', 'CC(C)(C)/C=C(\\C)CC', 'C/C=C/C', 'C/C=C\\C',
+             'CC(C)(C)/C=C/C', 'CC(C)(C)/C=C\\C', 'C/C(=C/C(C)(C)C)C(C)(C)C',
+             # six-membered rings with a heteroatom, alone and next to an alternating C6 ring (ring-by-ring perception)
+             'C1CCOCC1', 'C1CCOCC1c1ccccc1', 'c1ccccc1C1CCOCC1', 'c1ccncc1', 'C1=NC=CC=C1', 'C1N=CC=CC=1', 'Cc1ccccn1',
+             'C1=CC=NC=C1', 'c1cc[nH]c1', 'c1ccoc1', 'c1ncccn1', 'C1=CC=CC=C1C1=CC=CN=C1',
+             # large molecules: more than 1000 (and more than 10 000) raw candidate matches of a generic centre pattern
+             'C' * 45, 'C' * 50 + 'O']
+# pool for mixtures (C04): components whose combination exercises same-named corrections, ring order and match caps
+MIX_GAS = ['C', 'CC', 'CCC(C)(C)C', 'CC(C)C(C)C', 'C/C=C\\C', 'CC=C(C)C', 'c1ccccc1', 'C1CCOCC1', 'C1CCCCC1', 'Cc1ccccc1C',
+           'C1=CC=CCC1', 'CC(=O)O', 'CO', 'C[CH2]', 'C' * 22, 'C' * 24, 'c1ccncc1', 'CC(C)CC(C)C', 'C1CC1', 'OCC(O)CO']
+MIX_SURFACE = ['C[Pt]', 'C([Pt])[Pt]', 'CC[Pt]', 'C(C[Pt])[Pt]', 'O[Pt]', 'OC[Pt]', 'O~[Pt]', 'C([Pt])(CCCCCC)C[Pt]', 'C1CC1[Pt]',
+               'C1C([Pt])C1[Pt]', 'OCC([Pt])O[Pt]', 'C' * 22, 'C' * 24, 'CC', 'OCC(O)C([Pt])O', 'C(=O)([Pt])[Pt]', '[H][Pt]',
+               'OC(C[Pt])C([Pt])[Pt]', 'CC(C)C(C)C', 'C=C([Pt])[Pt]']
 FIXED_SURFACE = ['C[Pt]', 'C([Pt])[Pt]', 'C([Pt])([Pt])[Pt]', 'C([Pt])([Pt])([Pt])[Pt]', 'CC[Pt]', 'C(C[Pt])[Pt]', 'CC([Pt])[Pt]',
                  'O[Pt]', 'O([Pt])[Pt]', 'OC[Pt]', 'CO[Pt]', 'O=C[Pt]', 'C(=O)([Pt])[Pt]', 'OCC([Pt])O[Pt]', 'C([Pt])(CCCCCC)C[Pt]',
                  'CCCCCCC([Pt])C[Pt]', 'OCC(O)C([Pt])O', '[Pt]OC(=O)C', 'C(O)(O)[Pt]', 'C=C([Pt])[Pt]', '[H][Pt]', 'C1CC1[Pt]',
